@@ -552,12 +552,59 @@ def tariff_monitor(task):
             if harness_fault(e):
                 raise
             bad("lookup_is_total", f"{name} on a simulation starting {sim.start}: {type(e).__name__}: {e}")
+    for name in TARIFFS:
+        try:
+            evals += _long_trajectory_cost(name, rnd, bad)
+        except Exception as e:
+            from .drivers import harness_fault
+            if harness_fault(e):
+                raise
+            bad("lookup_is_total", f"{name} on a three-week trajectory: {type(e).__name__}: {e}")
     return dict(label=task.get("label", "tariff_monitor"),
                 bound=("all 5 bundled tariff files x every (month, day, weekday) triple (366 x 7 = 2562 per file; thorough: every day of the 14 calendar "
                        "types) x every breakpoint and +-1 min / +1 s around it, 00:00, 23:59 and a seeded instant; one tariff object per file across all years; "
                        "vector lookups and Interface/analysis alignment on seeded simulations"),
                 exhaustive_over_dates=True, days_checked=exhaustive_days,
                 evaluations=evals, distinct_nontrivial=len(distinct), violations=viol, wall_s=round(time.time() - t0, 2))
+
+
+def _long_trajectory_cost(name, rnd, bad):
+    """energy_cost / demand_charge on a recorded trajectory of THREE WEEKS (hourly periods) that starts a few days before a season boundary of the
+    tariff: every period's price is the lookup at start + k x period - also beyond the first week, also across the boundary.  The trajectory is
+    assigned, not simulated (the analysis functions are functions of the recorded matrices)."""
+    import warnings
+    from datetime import datetime, timedelta
+    import numpy as np
+    from acnportal import acnsim
+    from acnportal.acnsim import analysis
+    from acnportal.signals.tariffs.tou_tariff import TimeOfUseTariff
+    tar = TimeOfUseTariff(name)
+    bounds = sorted({s.start for s in tar._schedule if s.start != (1, 1)})
+    n = 0
+    for (m, d) in bounds[:2]:
+        st = datetime(2019, m, d, rnd.randint(0, 23)) - timedelta(days=rnd.randint(3, 6))
+        net = acnsim.ChargingNetwork()
+        for k in range(2):
+            net.register_evse(acnsim.EVSE(f"L{k}"), 208 + 32 * k, 0)
+        with warnings.catch_warnings():
+            warnings.simplefilter("ignore")
+            sim = acnsim.Simulator(net, None, acnsim.EventQueue(), st, period=60, signals={"tariff": tar}, verbose=False)
+        T = 21 * 24
+        rg = np.random.RandomState(rnd.randint(0, 10 ** 6))
+        sim.charging_rates = rg.uniform(0, 32, size=(2, T))
+        sim.pilot_signals = sim.charging_rates.copy()
+        sim._iteration = T
+        agg = analysis.aggregate_power(sim)
+        prices = [tar.get_tariff(st + timedelta(hours=j)) for j in range(T)]
+        want = sum(p * a for p, a in zip(prices, agg))
+        got = analysis.energy_cost(sim)
+        n += 1
+        if abs(got - want) > 1e-9 * max(1, abs(want)):
+            bad("energy_cost_is_sum_price_x_power_x_dt", f"{name}: three weeks from {st} (across the season boundary {m}-{d}): {got} vs {want}")
+        wdc = tar.get_demand_charge(st) * max(agg)
+        if abs(analysis.demand_charge(sim) - wdc) > 1e-9 * max(1, abs(wdc)):
+            bad("demand_charge_is_rate_x_peak_power", f"{name}: {analysis.demand_charge(sim)} vs {wdc}")
+    return n
 
 
 def _tariff_alignment(sim, tar, name, iface, rnd, bad):
